@@ -77,8 +77,8 @@ structure SplineCfg (N : Type) where
   md : N
   init : List N
 
-/-- first scalar id of the conditioner outputs of one dimension -/
-def pBase : Nat := 40000
+/-- first scalar id of the conditioner outputs of one dimension (above every let-id of the generated ASTs, for every number of knots) -/
+def pBase : Nat := 1000000
 
 /-- the transformer of one dimension built by `transformer_constructor(params)`: `ravelled + init` unravelled in the leaf order
 `x_pos.arr (K), y_pos.arr (K), derivatives.arr (K + 2)`, each `Lambda` unwrapped, the kernel run on `xi`.
